@@ -358,7 +358,10 @@ def run(ctx):
         b = run_one(scn, [])
         ta = [canon(x) for _, x in a.trace]
         tb = [canon(x) for _, x in b.trace]
-        if ta != tb or a.results != b.results:
+        # pack names are random (generated in Rust), and a process that walks a directory
+        # listing (e.g. clearing obsolete_packs) visits its files in name order: the same
+        # operations may come in a different order.  Compare them as multisets.
+        if sorted(ta) != sorted(tb) or a.results != b.results:
             raise HarnessError("non-deterministic execution in scenario %r" % (scn,))
         sizes["%s/%d/%s/bound%d" % (scn[0], scn[1], "".join(scn[2]), scn[3])] = len(a.points)
         pre, _ = procs.frontier(lambda p: run_one(scn, p), scn[3], want=64,
